@@ -128,7 +128,7 @@ REQUIRED = {
  'C05':['withdraw_keeps_poolOk','send_keeps_poolOk','withdraw_locked_delta','rejected_noop','createPool_inv','withdrawAll_inv','sendToNew_inv','createVA_same','splitCoins_same','handle_inv','deliver_inv','backed_over_histories','c05_every_reachable_state','inv_implies_registered','inv_genesis'],
  'C06':['locked_nothing','matured_everything','withdraw_twice_total','withdraw_idempotent','query_agrees'],
  'C07':['unlock_exact','orig_over_releases','unlock_exact_nonvacuous'],
- 'C08':['vestedPart_exact','vestedPart_bounds'],
+ 'C08':['vestedPart_exact','vestedPart_bounds','newVestingAccount_post','send_above_locked_fails','bumpLast_adds_exactly'],
  'C09':['newCva_other','send_keeps_existing','createVA_rejects_existing','newVestingAccount_rejects_existing','splitCoins_rejects_existing','unlock_shape','keepsExcept_splitCoins','existing_untouched','existing_untouched_history','tie_account_writers'],
  'C10':['minter_no_halt','no_negative_sub','validated_denom','tie_no_unguarded_int64'],
  'C11':['last_occurrence_order_irrelevant','tie_nondet_sites'],
